@@ -8,6 +8,7 @@ import (
 	"math"
 	"math/rand"
 	"net/http"
+	"net/url"
 	"net/http/httptest"
 	"runtime"
 	"sync"
@@ -269,6 +270,10 @@ func runFrames(raw json.RawMessage, seed int64, rec *Rec) {
 	// with a transport failure may legitimately be dropped
 	body := &scriptedBody{data: append([]byte(nil), avail...), script: s.Script, tail: s.Tail,
 		eofWith: s.EofWith && s.Tail == "eof", rec: rec}
+	// (chosen by the scenario's content, not its id: the segmentations of one scenario are compared with each other)
+	if v := s.Cut*7 + len(s.Frames)*3 + len(s.Proto) + s.Limit; v%3 == 1 {
+		body.errv = rstError(v / 3) // a transport error that is an HTTP/2 stream reset from the peer
+	}
 	unary := s.Shape == "unary"
 	ct := contentType(s.Proto, s.Raw, "proto")
 
@@ -299,6 +304,9 @@ func runFrames(raw json.RawMessage, seed int64, rec *Rec) {
 			if s.DoErr {
 				// the transport fails before there is a response: in the model, the tail with nothing delivered
 				rec.Add(E("read", "k", 0, "e", s.Tail))
+				if s.Cut%2 == 0 {
+					return nil, &url.Error{Op: "Post", URL: req.URL.String(), Err: body.tailErr()} // what http.Client.Do returns
+				}
 				return nil, fmt.Errorf("Post %q: %w", req.URL, body.tailErr())
 			}
 			h := http.Header{}
